@@ -9,11 +9,22 @@ import sys
 import time
 
 VERIF = os.path.dirname(os.path.dirname(os.path.abspath(__file__)))
-MODULES = ["contracts.c04_periods", "contracts.engine", "contracts.c03_requests", "contracts.c06_parameters", "contracts.c16_set_input", "contracts.c13_clone", "contracts.c14_reforms", "contracts.c18_engine", "contracts.c17_storage", "contracts.c15_enums", "contracts.c10_groups"]
+MODULES = ["contracts.c04_periods", "contracts.engine", "contracts.c03_requests", "contracts.c06_parameters", "contracts.c16_set_input", "contracts.c13_clone", "contracts.c14_reforms", "contracts.c18_engine", "contracts.c17_storage", "contracts.c15_enums", "contracts.c10_groups", "contracts.c07_views"]
 
 CAL_THEORY = "calendar (OM/DIM opaque, lemma instances; closed forms = Hinnant days-from-civil), validated against datetime"
 
 PROPS = {
+    "C07": {
+        "theories": ["parameter views: VIEW_AT(tree, instant) opaque; representation invariant MemoOK (every memoised view of a system is the view of its current tree)"],
+        "lemmas": [],
+        "validations": [],
+        "assumptions": [
+            "the at-instant view of a tree is an opaque function of (tree object, instant): in-place edits of a tree after a read are not a documented route and are not covered",
+            "functools.lru_cache (if used) is a process-wide memo keyed by the argument tuple",
+            "what a view contains is C06's business (ParameterNodeAtInstant.__init__, Parameter._get_at_instant)",
+        ],
+        "not_decided": ["element-wise reads through vector indexing (VectorialParameterNodeAtInstant, as-of-date variant): numpy record arrays are outside the array algebra; not under contract in this version"],
+    },
     "C10": {
         "theories": ["groups: N persons, count groups, eid: [0,N) -> [0,count) (all symbolic); aggregates are reduction nodes compared pointwise on (group id, weight) per person"],
         "lemmas": [],
